@@ -21,6 +21,7 @@ import (
 	"github.com/herumi/bls-eth-go-binary/bls"
 	"go.uber.org/zap"
 
+	"github.com/bloxapp/ssv/protocol/v2/qbft/controller"
 	qbfttesting "github.com/bloxapp/ssv/protocol/v2/qbft/testing"
 	"github.com/bloxapp/ssv/protocol/v2/ssv/runner"
 )
@@ -278,12 +279,18 @@ type env struct {
 // newEnv builds the real runner of the given role for operator opID, the way
 // protocol/v2/ssv/testing.baseRunner does, but with recording beacon node / signer / network.
 func newEnv(rs *roleSpec, n int, opID spectypes.OperatorID) *env {
+	return newEnvWith(rs, n, opID, newRecKM(), newRecBN(), newRecNet(), false)
+}
+
+// newEnvWith: prod = the QBFT controller is built with controller.NewController as the operator
+// does (instance container of the default capacity) instead of the test helper (capacity 1024).
+func newEnvWith(rs *roleSpec, n int, opID spectypes.OperatorID, km *recKM, bn *recBN, net *recNet, prod bool) *env {
 	ks := keySet(n)
 	logger := zap.NewNop()
 	share := testingutils.TestingShare(ks)
 	share.OperatorID = opID
 	share.SharePubKey = ks.Shares[opID].GetPublicKey().Serialize()
-	e := &env{rs: rs, ks: ks, bn: newRecBN(), km: newRecKM(), net: newRecNet(), share: share, logger: logger}
+	e := &env{rs: rs, ks: ks, bn: bn, km: km, net: net, share: share, logger: logger}
 	identifier := spectypes.NewMsgID(testingutils.TestingSSVDomainType, testingutils.TestingValidatorPubKey[:], rs.role)
 	vc := rs.valCheck(e.km)
 	config := qbfttesting.TestingConfig(logger, ks, identifier.GetRoleType())
@@ -292,7 +299,12 @@ func newEnv(rs *roleSpec, n int, opID spectypes.OperatorID) *env {
 	config.ProposerF = func(state *specqbft.State, round specqbft.Round) spectypes.OperatorID { return 1 }
 	config.Network = e.net
 	config.Signer = e.km
-	contr := qbfttesting.NewTestingQBFTController(identifier[:], share, config, false)
+	var contr *controller.Controller
+	if prod {
+		contr = controller.NewController(identifier[:], share, config, false)
+	} else {
+		contr = qbfttesting.NewTestingQBFTController(identifier[:], share, config, false)
+	}
 	bnw := spectypes.BeaconTestNetwork
 	switch rs.role {
 	case spectypes.BNRoleAttester:
